@@ -116,7 +116,7 @@ class Renderer:
         self.layout = layout          # canon | shift (blank/comment lines between lines) | spread (line breaks inside statements)
         self.cur_indent = 0
 
-    COMMENTS = ["", "", "-- c", "--[[ a", "--[==[ x ]==]", "\t", "-- [[ not long", "--[[x]] --[[y]]"]
+    COMMENTS = ["", "", "-- c", "--[[ a", "--[==[ x ]==]", "\t", "-- [[ not long", "--[[x]] --[[y]]", "--[= short", "--[ short", "--[==", "--]] x", "--[=[ ]] ]=]"]
 
     def filler(self):
         """blank lines and comments of every form between two lines (shift layouts)"""
